@@ -35,7 +35,10 @@ def gen(rng, op: str) -> ops.OpCase:
         shapes = {"input": lead + (fi,), "weight": (fo, fi)}
         if bias:
             shapes["bias"] = (fo,)
-        return ops.OpCase(op, {"constraint": None, "bias": bias}, shapes, list(shapes))
+        cfg_ = {"constraint": None, "bias": bias}
+        if len(lead) >= 2 and rng.random() < 0.5:
+            cfg_["input_layout"] = "permuted"
+        return ops.OpCase(op, cfg_, shapes, list(shapes))
     if op == "matmul":
         m, k, n = rng.sample(P, 3)
         lead = tuple(rng.choice([2, 3, 5]) for _ in range(rng.randint(0, 3)))
@@ -57,7 +60,16 @@ def gen(rng, op: str) -> ops.OpCase:
                                "bias": bias}, shapes, list(shapes))
     if op == "add":
         shape = tuple(rng.sample(P, rng.randint(1, 4)))
-        mode = rng.choice(["same", "size1", "missing", "both", "missing+size1", "missing+size1"])
+        mode = rng.choice(["same", "size1", "missing", "both", "missing+size1", "missing+size1", "both-equal-numel"])
+        if mode == "both-equal-numel":
+            # both operands are expanded, by the same factor, so they have the same number of elements although their shapes
+            # differ: (k,1)+(1,k), (k,1)+(k,), (m,k,1)+(m,1,k), (2,1,4)+(1,8,1)
+            k_ = rng.choice([2, 3, 5, 8])
+            m_ = rng.choice([2, 3])
+            a, b = rng.choice([((k_, 1), (1, k_)), ((k_, 1), (k_,)), ((m_, k_, 1), (m_, 1, k_)), ((2, 1, 4), (1, 8, 1))])
+            if rng.random() < 0.5:
+                a, b = b, a
+            return ops.OpCase(op, {"constraint": None, "mode": mode, "swap": False}, {"input": a, "other": b}, ["input", "other"])
         if mode == "same":
             a, b = shape, shape
         elif mode == "size1":
